@@ -59,4 +59,13 @@ PROPS = {
         "assumptions": ["MPD read with an own encoding/xml reader, segments with an own box walker",
                         "first-entry clause allows one segment of slack; $Number$ templates: exact for constant durations, within the loop's maximum deviation otherwise"],
     },
+    "C05": {
+        "parts": [{"pkg": "livesim", "test": "TestVerifC05", "gen": True}],
+        "clauses": ["C05.a", "C05.b", "C05.c", "C05.d", "C05.e", "C05.f", "C05.g", "C05.h"],
+        "level": "model_checking",
+        "rule": "assets x MPDs x {Number, Timeline-Time, Timeline-Number} x ato {0,1/2 seg} x tsbd {10,60,7} x {one period, periods_60} x stop {none, mid-segment, boundary} x start {0,1.7e9}: "
+                "sorted walk over every breakpoint instant +-1 ms (segment starts/ends, with/without ato, with/without tsbd, period boundaries, stop) plus one interior instant per piece; "
+                "relations on consecutive states and grouping of the whole walk by publishTime",
+        "assumptions": ["content change instants are taken from the walk itself (pairs of instants 1 ms apart)"],
+    },
 }
